@@ -97,6 +97,7 @@ Proof.
   - destruct (wr s); inversion H; subst; subtac Hw.
   - discriminate.
   - inversion H; subst; subtac Hw.
+  - inversion H; subst; subtac Hw.
 Qed.
 
 (* ---- a step of ANOTHER task leaves a task's record intact ---- *)
@@ -151,11 +152,9 @@ Proof.
     + (* CData with a stream *)
       destruct (pcof_sub_set_task s0 t (with_pc (with_sub x (psh_frame n payload)) (PW0 WkPlain (psh_frame n payload)))) as [P S].
       rewrite P, S. cbn [t_pc with_pc in_hand t_sub with_sub lin set_task set_tasks]. rewrite X, <- O. reflexivity.
-    + (* COpen registers *)
-      cbv zeta.
-      match goal with |- context [pcof (set_task ?Y t ?v) t] => destruct (pcof_sub_set_task Y t v) as [P S] end.
-      rewrite P, S.
-      cbn [t_pc with_pc in_hand t_sub with_sid lin set_task set_tasks set_table]. rewrite app_nil_r, X. exact O.
+    + (* COpen passes the closed check *)
+      destruct (pcof_sub_set_task s0 t (with_pc x PO0)) as [P S]. rewrite P, S.
+      cbn [t_pc with_pc in_hand t_sub lin set_task set_tasks]. rewrite app_nil_r, X. exact O.
     + (* CClose *)
       rewrite sub_enter_close.
       assert (t_sub (tasks s0 t) = t_sub (tasks s t)) as S0 by (unfold s0; cbn; rewrite upd_same; reflexivity).
@@ -211,6 +210,11 @@ Proof.
     + rewrite pcof_finish_close_same, sub_finish_close.
       destruct (data_finish_close (set_shut s) t a k) as (_ & _ & L & _). rewrite L. exact O.
   - discriminate.
+  - (* PO0 registers *)
+    inversion H; subst. cbv zeta.
+    match goal with |- context [pcof (set_task ?Y t ?v) t] => destruct (pcof_sub_set_task Y t v) as [P S] end.
+    rewrite P, S.
+    cbn [t_pc with_pc in_hand t_sub with_sid lin set_task set_tasks set_table]. rewrite app_nil_r in *. exact O.
   - (* PO1 *)
     inversion H; subst.
     destruct (pcof_sub_set_task s t (with_pc (with_sub (tasks s t) (syn_frame sid)) (PW0 WkOpen (syn_frame sid)))) as [P S].
